@@ -535,6 +535,12 @@ def run(tier: str, seed: int, pid="C12") -> int:
         for P in (("aa",), ("ab",), ("aa", "bb"), ("aba",)):
             for pk1, pk2 in (("infmarked", "plain"), ("plain", "infmarked"), ("infmarked", "inf"), ("infmarkedsym", "sym"), ("infmarked", "infmarked")):
                 two3.append((((P, "ab"), pk1), ((P, "ab"), pk2), "eqpath"))
+        # pairs whose universes have the same rule shapes everywhere and differ only in the *size* of an atom (both classes
+        # have 3 words of every size >= 2): the atoms must be compared with their sizes
+        for P, Q in ((("ab", "bba"), ("ab", "bbb")), (("ba", "aaa"), ("ba", "aab")), (("ab", "bbb"), ("ab", "bba")), (("ba", "aab"), ("ba", "aaa"))):
+            for pk1, pk2 in (("plain", "plain"), ("sym", "plain"), ("inf", "inf")):
+                for v in ("plain", "eqpath"):
+                    two3.append((((P, "ab"), pk1), ((Q, "ab"), pk2), v))
         if tier == "thorough":
             import itertools as it
             from ..universes.words import swap_word, cycle_word
